@@ -239,3 +239,24 @@ Proof.
     + apply dytrunc_mono; exact M.
     + exact M.
 Qed.
+
+(* two of the facts rounding_ok asks of the executable rnd (the others -
+   monotonicity and the relative error - need its characterisation as a
+   nearest element of the format and are not proved) *)
+Lemma rnd_exact : forall p emin m e, bitlen (Z.abs m) <= p -> emin <= e -> rnd p emin (m, e) = (m, e).
+Proof.
+  intros p emin m e Hb He. unfold rnd.
+  destruct (Z.leb_spec (Z.max (e + bitlen (Z.abs m) - p) emin) e); [reflexivity | lia].
+Qed.
+
+Lemma rnd_zero : forall p emin e, fst (rnd p emin (0, e)) = 0.
+Proof.
+  intros p emin e. unfold rnd. cbn [Z.abs]. change (bitlen 0) with 0.
+  destruct (Z.leb_spec (Z.max (e + 0 - p) emin) e) as [H | H]; [reflexivity |].
+  set (k := Z.max (e + 0 - p) emin - e). assert (Hk : 0 < k) by (unfold k; lia).
+  assert (P : 0 < 2 ^ k) by (apply Z.pow_pos_nonneg; lia).
+  assert (Ph : 0 < 2 ^ (k - 1)) by (apply Z.pow_pos_nonneg; lia).
+  rewrite Z.div_0_l, Z.mod_0_l by lia. cbn [fst].
+  destruct (Z.ltb_spec (2 ^ (k - 1)) 0); [lia |].
+  destruct (Z.eqb_spec 0 (2 ^ (k - 1))); [lia |]. reflexivity.
+Qed.
